@@ -199,7 +199,9 @@ def determinism_recheck(variant, prop, tier, seed, part, total, block, hash_mod,
         s += blk
     with cf.ThreadPoolExecutor(max_workers=NPROC) as ex:
         futs = [ex.submit(run_worker_block, binary, prop, tier, seed, part, s, n,
-                          list(extra) + ["--hash-mod", str(hash_mod), "--only-hash"], variant, res, lock, stop)
+                          # (the same-shape pass must execute every run, like the first pass did: a library that keeps
+                          # state from run to run is only then in the same state when a sampled run starts)
+                          list(extra) + ["--hash-mod", str(hash_mod)] + ([] if all_blocks else ["--only-hash"]), variant, res, lock, stop)
                 for (s, n) in blocks]
         for f in futs:
             f.result()
@@ -393,7 +395,34 @@ def match_known(prop, v, known):
     return None
 
 
-def block_replay(variant, prop, tier, seed, part, start, run, cls=None, want_digest=False):
+def single_zone_references(variant):
+    """C14 part 'order': the fingerprint of every base zone, each taken in a fresh process that loads nothing else.
+    Returns the path of a JSON file (the caller removes it) and the number of references."""
+    binary = os.path.join(B.BUILD, variant, "simzone")
+    p = subprocess.run([binary, "dump-bases"], capture_output=True, text=True, env=_env(), timeout=300)
+    bases = [l.strip() for l in p.stdout.split("\n") if l.strip().startswith(("shipped:", "synth:"))]
+
+    def one(b):
+        q = subprocess.run([binary, "fingerprint", "--base", b], capture_output=True, text=True, env=_env(), timeout=120)
+        for j in parse_lines(q.stdout):
+            if "fingerprint" in j:
+                return b, j["fingerprint"]
+        return b, None
+    refs, missing = {}, []
+    with cf.ThreadPoolExecutor(max_workers=NPROC) as ex:
+        for b, fp in ex.map(one, bases):
+            if fp is None:
+                missing.append(b)
+            else:
+                refs[b] = fp
+    os.makedirs(WORK, exist_ok=True)
+    fd, path = tempfile.mkstemp(prefix="c14-refs-", suffix=".json", dir=WORK)
+    with os.fdopen(fd, "w") as f:
+        json.dump(refs, f)
+    return path, len(refs), missing
+
+
+def block_replay(variant, prop, tier, seed, part, start, run, cls=None, want_digest=False, extra=()):
     """Re-execute a worker from `start` up to and including `run` in a fresh process (a pure function of the
     seed and the indices).  Returns (classes observed at `run`, digest of `run` or None)."""
     binary = os.path.join(B.BUILD, variant, "simzone")
@@ -402,10 +431,25 @@ def block_replay(variant, prop, tier, seed, part, start, run, cls=None, want_dig
         cmd += ["--part", part]
     if want_digest:
         cmd += ["--digests"]
+    # the options the stage ran its workers with (--weak-hash, --cold, ...); a references file is taken afresh
+    extra = list(extra)
+    refs_path = None
+    if "--refs" in extra:
+        i = extra.index("--refs")
+        del extra[i:i + 2]
+        refs_path, _, _ = single_zone_references(variant)
+        extra += ["--refs", refs_path]
+    cmd += extra
     try:
         p = subprocess.run(cmd, capture_output=True, text=True, env=_env(), timeout=1800, errors="replace")
     except subprocess.TimeoutExpired:
         return ["machinery:block-replay-timeout"], None
+    finally:
+        if refs_path:
+            try:
+                os.remove(refs_path)
+            except OSError:
+                pass
     classes, digest = [], None
     for j in parse_lines(p.stdout):
         if j.get("run") == run and "violations" in j:
